@@ -275,8 +275,8 @@ func (e *Engine) SolveUnit(unitName string, uses []string) []*OblResult {
 			tmo, maxTry := quickTimeout, len(o.Paths)
 			if o.Kind == "reach" {
 				tmo = fastTimeout
-				if maxTry > 12 {
-					maxTry = 12
+				if maxTry > 3 {
+					maxTry = 3
 				}
 			}
 			if r.Status == "cover-unknown" {
@@ -293,7 +293,7 @@ func (e *Engine) SolveUnit(unitName string, uses []string) []*OblResult {
 					}
 				}
 			}
-			if r.Status != "cover-ok" {
+			if r.Status != "cover-ok" && o.Kind != "reach" {
 				for i := 1; i < maxTry; i++ {
 					res := solveQuery(e.buildQuery(o.Paths[i], false, uses), tmo)
 					r.Time += res.Time
